@@ -120,7 +120,7 @@ fn grid(quick: bool) -> (Vec<usize>, Vec<usize>) {
     (limits, depths)
 }
 
-fn shape_sweep(sh_idx: usize, quick: bool, shard: &util::Shard) -> Report {
+fn shape_sweep(sh_idx: usize, quick: bool, shard: &util::Shard, outer: &util::Shard) -> Report {
     let mut rep = Report::new();
     let t0 = std::time::Instant::now();
     let all = shapes();
@@ -131,7 +131,7 @@ fn shape_sweep(sh_idx: usize, quick: bool, shard: &util::Shard) -> Report {
             continue;
         }
         let src = (shape.make)(d);
-        if !shard.begin_case(di as u64, &|| format!("{} depth {d}", shape.name)) {
+        if !outer.begin_case(di as u64, &|| format!("{} depth {d}", shape.name)) {
             continue;
         }
         let mut first_value: Option<(usize, String)> = None;
@@ -231,10 +231,74 @@ fn deep_sweep(sh_idx: usize, shard: &util::Shard, depths: &[usize]) -> Report {
     rep
 }
 
+/// A value that contains itself, handed to every builtin / operator that walks values: the
+/// walk must be stopped by the frame limit (or diagnosed as infinite recursion), never loop.
+pub fn self_containing() -> Vec<(&'static str, String)> {
+    let arr = "local a = [1, a]; ";
+    let obj = "local a = {x: a, y: 1}; ";
+    let mut v: Vec<(&'static str, String)> = Vec::new();
+    let calls: Vec<(&'static str, &'static str, &'static str)> = vec![
+        // (name, call on array value `a`, call on object value `a`)
+        ("prune", "std.prune(a)", "std.prune(a)"),
+        ("mergePatch", "std.mergePatch({k: a}, {k: a})", "std.mergePatch(a, a)"),
+        ("flattenDeepArray", "std.flattenDeepArray(a)", "std.flattenDeepArray([a])"),
+        ("deepJoin", "std.deepJoin([\"s\", a])", "std.deepJoin([a])"),
+        ("flattenArrays", "std.flattenArrays([a, a])", "std.flattenArrays([[a]])"),
+        ("toString", "std.toString(a)", "std.toString(a)"),
+        ("string-coercion", "\"\" + a", "\"\" + a"),
+        ("format-s", "\"%s\" % [a]", "\"%s\" % [a]"),
+        ("equals", "a == a", "a == a"),
+        ("std.equals", "std.equals(a, [1, a])", "std.equals(a, a)"),
+        ("assertEqual", "std.assertEqual(a, a)", "std.assertEqual(a, a)"),
+        ("less", "a < a", "[a] < [a]"),
+        ("__compare", "std.__compare(a, a)", "std.__compare([a], [a])"),
+        ("manifestJson", "std.manifestJson(a)", "std.manifestJson(a)"),
+        ("manifestJsonEx", "std.manifestJsonEx(a, \" \")", "std.manifestJsonEx(a, \" \")"),
+        ("manifestJsonMinified", "std.manifestJsonMinified(a)", "std.manifestJsonMinified(a)"),
+        ("manifestYamlDoc", "std.manifestYamlDoc(a)", "std.manifestYamlDoc(a)"),
+        ("manifestYamlStream", "std.manifestYamlStream([a])", "std.manifestYamlStream([a])"),
+        ("manifestTomlEx", "std.manifestTomlEx({k: a}, \"\")", "std.manifestTomlEx(a, \"\")"),
+        ("manifestPython", "std.manifestPython(a)", "std.manifestPython(a)"),
+        ("manifestPythonVars", "std.manifestPythonVars({k: a})", "std.manifestPythonVars(a)"),
+        ("manifestIni", "std.manifestIni({main: {k: a}, sections: {}})", "std.manifestIni({main: a, sections: {s: a}})"),
+        ("manifestXmlJsonml", "std.manifestXmlJsonml([\"t\", a])", "std.manifestXmlJsonml([\"t\", a, [\"u\", a]])"),
+        ("sort", "std.sort([a, a])", "std.sort([[a], [a]])"),
+        ("set", "std.set([a, a])", "std.set([[a], [a]])"),
+        ("uniq", "std.uniq([a, a])", "std.uniq([[a], [a]])"),
+        ("member", "std.member([a], a)", "std.member([a], a)"),
+        ("count", "std.count([a], a)", "std.count([a], a)"),
+        ("contains", "std.contains([a], a)", "std.contains([a], a)"),
+        ("find", "std.find(a, [a])", "std.find(a, [a])"),
+        ("remove", "std.remove([a], a)", "std.remove([a], a)"),
+        ("setMember", "std.setMember(a, [a])", "std.setMember([a], [[a]])"),
+        ("minArray", "std.minArray([a, a])", "std.minArray([[a], [a]])"),
+        ("maxArray", "std.maxArray([a, a])", "std.maxArray([[a], [a]])"),
+        ("setUnion", "std.setUnion([a], [a])", "std.setUnion([[a]], [[a]])"),
+        ("setInter", "std.setInter([a], [a])", "std.setInter([[a]], [[a]])"),
+        ("setDiff", "std.setDiff([a], [a])", "std.setDiff([[a]], [[a]])"),
+        ("root-value", "a", "a"),
+        ("objectValues-root", "std.objectValues({k: a})", "std.objectValues(a)"),
+        ("escapeStringJson", "std.escapeStringJson(a)", "std.escapeStringJson(a)"),
+        ("join", "std.join([], [a, a])", "std.join(\",\", [a])"),
+        ("base64", "std.base64(a)", "std.base64([a])"),
+        ("encode-format-d", "\"%d\" % [a]", "\"%(x)s\" % a"),
+        ("primitiveEquals", "std.primitiveEquals(a, a)", "std.primitiveEquals(a, a)"),
+        ("trace-rest", "std.trace(\"t\", a)", "std.trace(\"t\", a)"),
+        ("repeat", "std.repeat(a, 2)", "std.repeat([a], 2)"),
+        ("reverse", "std.reverse(a)", "std.reverse([a])"),
+        ("slice", "a[0:2]", "[a][0:1]"),
+    ];
+    for (name, on_arr, on_obj) in calls {
+        v.push((name, format!("{arr}{on_arr}")));
+        v.push((name, format!("{obj}{on_obj}")));
+    }
+    v
+}
+
 pub fn run(ctx: &Ctx) -> i32 {
     let mut total = Report::new();
     let n = shapes().len();
-    let cfg = util::ForkCfg { threads: ctx.threads, mem_bytes: 8 << 30, case_timeout_s: 120, died_signature: "C10/native-stack-or-abort".into() };
+    let cfg = util::ForkCfg { threads: ctx.threads, mem_bytes: 8 << 30, case_timeout_s: 120, died_signature: "C10/native-stack-or-abort".into(), resource_is_violation: false };
     let per = 4;
     let quick = ctx.quick();
     let r = util::par_forked(&cfg, n * per, |sh| {
@@ -250,6 +314,38 @@ pub fn run(ctx: &Ctx) -> i32 {
     total.merge(r);
     let deep: Vec<usize> = if quick { vec![20_000] } else { vec![20_000, 100_000, 300_000] };
     let r = util::par_forked(&cfg, n, |sh| deep_sweep(sh.index, sh, &deep));
+    total.merge(r);
+    // self-containing values through every value-walking builtin: one process each, a hang or
+    // memory exhaustion is a violation here (the walk must be stopped by the frame limit)
+    let sc = self_containing();
+    let scfg = util::ForkCfg { threads: ctx.threads, mem_bytes: 2 << 30, case_timeout_s: 8, died_signature: "C10/unbounded-walk".into(), resource_is_violation: true };
+    let mut r = util::par_forked(&scfg, sc.len(), |sh| {
+        let mut rep = Report::new();
+        let (name, src) = &sc[sh.index];
+        if !sh.begin_case(0, &|| src.clone()) {
+            return rep;
+        }
+        rep.evaluations += 1;
+        rep.states += 1;
+        rep.traces_validated += 1;
+        let o = run_small_stack(src.clone(), 500, 1024);
+        rep.outcome(match &o { O::Value(_) => "walk:value", O::StackOverflow => "walk:stack-overflow", O::InfiniteRecursion => "walk:infinite-recursion", O::Other(_) => "walk:other-error" });
+        rep.distinct(&(name, std::mem::discriminant(&o)));
+        if let O::Value(v) = &o {
+            // a finite answer is fine when the builtin does not need to walk the whole value
+            // (e.g. std.member finds the element, std.reverse is lazy): only manifestation of
+            // the result would diverge, and it did not
+            rep.count("self_containing_value_answered_without_full_walk", 1);
+            let _ = v;
+        }
+        rep
+    });
+    for v in r.violations.iter_mut() {
+        if let Some(sidx) = v.case["shard"].as_u64() {
+            v.signature = format!("C10/unbounded-walk-of-self-containing-value/{}", sc[sidx as usize].0);
+        }
+    }
+    total.extra.insert("self_containing_value_probes".into(), json!(sc.len()));
     total.merge(r);
     let (l, d) = grid(quick);
     total.extra.insert("shapes".into(), json!(n));
@@ -277,18 +373,7 @@ struct ShardView<'a> {
 fn shape_sweep_view(shape_idx: usize, quick: bool, v: &ShardView<'_>) -> Report {
     // reuse shape_sweep with a plain shard for the residue class, but forward progress marks
     let plain = util::Shard::plain(v.residue, v.per);
-    let mut rep = Report::new();
-    let all = shapes();
-    let (_, depths) = grid(quick);
-    for (di, &d) in depths.iter().enumerate() {
-        if plain.mine(di as u64) {
-            if !v.outer.begin_case(di as u64, &|| format!("{} depth {d}", all[shape_idx].name)) {
-                continue;
-            }
-        }
-    }
-    rep.merge(shape_sweep(shape_idx, quick, &plain));
-    rep
+    shape_sweep(shape_idx, quick, &plain, v.outer)
 }
 
 pub fn replay(v: &serde_json::Value) -> i32 {
